@@ -19,6 +19,10 @@ type connStatus struct {
 	*sync.RWMutex
 	cond    *sync.Cond
 	current connStatusValue
+	// outages counts the transitions into connStatusReconnecting. A stream remembers the count of the
+	// connection it is bound to: a watcher that is scheduled late still sees that an outage has happened,
+	// even if the connection is connected again by then.
+	outages uint64
 }
 
 func newConnState() *connStatus {
@@ -68,8 +72,22 @@ func (e *connStatus) CompareAndSwapNot(old, new connStatusValue) (swapped bool) 
 func (e *connStatus) SwapWithoutLock(state connStatusValue) (old connStatusValue) {
 	old = e.current
 	e.current = state
+	if state == connStatusReconnecting && old != connStatusReconnecting {
+		e.outages++
+	}
 	e.cond.Broadcast()
 	return
+}
+
+func (e *connStatus) Outages() uint64 {
+	e.RLock()
+	defer e.RUnlock()
+	return e.outages
+}
+
+// DisconnectedSinceWithoutLock reports whether the connection is reconnecting or has been since the given outage count.
+func (e *connStatus) DisconnectedSinceWithoutLock(outages uint64) bool {
+	return e.current == connStatusReconnecting || e.outages != outages
 }
 
 func (e *connStatus) Is(state connStatusValue) bool {
